@@ -29,7 +29,11 @@ RULE = ("full grid: command {onboard, unlock, changepin, pubkeys} x device state
 RULE_ADDED = (
               'Also: non-ASCII and blank-padded PINs; 1..5 refused PINs typed before giving in; a '
               'wrong echo in the header bytes; a third of the cells through adm_ledger / adm_sgx '
-              'main() ')
+              'main() '
+              ' '
+              'Round 8: twelve kinds of wrong echo (incl. the right bytes followed by a status '
+              'word, by padding, twice); every third device holds wallet keys with marker-like '
+              'coordinates. ')
 RULE = RULE + " " + RULE_ADDED.strip()
 ASSUMPTIONS = [
     "simulated devices (pv/simdev) trusted; operator input is scripted, an exhausted script "
@@ -435,7 +439,7 @@ run_cell.seeds = set()
 
 def run_shard(spec, acc):
     env.setup()
-    tmpdir = tempfile.mkdtemp(prefix="pv-c18-")
+    tmpdir = env.mkdtemp("c18", spec.get("shard", spec.get("seed", 0)) % 2 == 1)
     rng = random.Random(spec["seed"] * 31337 + spec["shard"])
     try:
         for cell in cells(spec):
@@ -451,7 +455,7 @@ def run_shard(spec, acc):
 
 def replay(case, acc):
     env.setup()
-    tmpdir = tempfile.mkdtemp(prefix="pv-c18-")
+    tmpdir = env.mkdtemp("c18")
     try:
         run_cell(acc, tuple(case["cell"]), tmpdir, case["seed"])
     finally:
